@@ -714,6 +714,221 @@ func init() {
 			}
 		}
 
+		// ---- convertPanic: for each case clause of its `switch op`, the opcodes and the
+		// string literals tested inside (message texts), plus the cases of the leading type switch
+		{
+			fd := findMethod(rt, "VM", "convertPanic")
+			if fd == nil {
+				panic("method VM.convertPanic not found")
+			}
+			var sw *ast.SwitchStmt
+			var early []string
+			for _, st := range fd.Body.List {
+				switch st := st.(type) {
+				case *ast.TypeSwitchStmt:
+					for _, cl := range st.Body.List {
+						for _, t := range cl.(*ast.CaseClause).List {
+							early = append(early, types.ExprString(t))
+						}
+					}
+				case *ast.SwitchStmt:
+					if sw == nil {
+						sw = st
+					}
+				}
+			}
+			if sw == nil {
+				panic("convertPanic: switch on the operation not found")
+			}
+			opval := func(x ast.Expr) int64 {
+				tv, ok := rt.TypesInfo.Types[x]
+				if !ok || tv.Value == nil {
+					panic("convertPanic: case " + types.ExprString(x) + " is not a constant")
+				}
+				return i64(tv.Value)
+			}
+			fmt.Fprintf(b, "(* errors.go convertPanic: the payload types handled before the switch on the operation *)\nDefinition gen_convertPanic_early : list (list N) := [")
+			for i, t := range early {
+				if i > 0 {
+					b.WriteString("; ")
+				}
+				b.WriteString(coqBytes(t))
+			}
+			b.WriteString("].\n")
+			fmt.Fprintf(b, "(* errors.go convertPanic: per case clause of `switch op`, the operation codes and the string literals tested in its body *)\nDefinition gen_convertPanic_cases : list (list Z * list (list N)) := [")
+			for i, cl := range sw.Body.List {
+				cc := cl.(*ast.CaseClause)
+				var ops []string
+				for _, x := range cc.List {
+					ops = append(ops, fmt.Sprintf("(%d)%%Z", opval(x)))
+				}
+				var lits []string
+				for _, st := range cc.Body {
+					ast.Inspect(st, func(n ast.Node) bool {
+						if bl, ok := n.(*ast.BasicLit); ok {
+							if tv, ok := rt.TypesInfo.Types[bl]; ok && tv.Value != nil && tv.Value.Kind() == constant.String {
+								lits = append(lits, coqBytes(constant.StringVal(tv.Value)))
+							}
+						}
+						return true
+					})
+				}
+				if i > 0 {
+					b.WriteString(";")
+				}
+				fmt.Fprintf(b, "\n  ([%s], [%s])", strings.Join(ops, "; "), strings.Join(lits, "; "))
+			}
+			b.WriteString("].\n")
+			// the same literals with how they are tested: the dynamic type the payload was
+			// asserted to (0 = runtime.Error, 1 = string) and prefix (true) or equality (false);
+			// literals that are not tested (result messages) are left out
+			fmt.Fprintf(b, "(* errors.go convertPanic: (operation codes, payload type 0 = runtime.Error 1 = string, prefix test, literal) *)\nDefinition gen_convertPanic_rules : list (list Z * N * bool * list N) := [")
+			firstRule := true
+			for _, cl := range sw.Body.List {
+				cc := cl.(*ast.CaseClause)
+				var ops []string
+				for _, x := range cc.List {
+					ops = append(ops, fmt.Sprintf("(%d)%%Z", opval(x)))
+				}
+				var stack []ast.Node
+				kindOf := func() int {
+					// innermost enclosing assertion of msg to a type
+					for i := len(stack) - 1; i >= 0; i-- {
+						switch n := stack[i].(type) {
+						case *ast.CaseClause:
+							if i > 0 {
+								if body, ok := stack[i-1].(*ast.BlockStmt); ok && i > 1 {
+									if _, ok := stack[i-2].(*ast.TypeSwitchStmt); ok && len(n.List) == 1 {
+										_ = body
+										switch types.ExprString(n.List[0]) {
+										case "runtime.Error":
+											return 0
+										case "string":
+											return 1
+										}
+										return -1
+									}
+								}
+							}
+						case *ast.IfStmt:
+							if as, ok := n.Init.(*ast.AssignStmt); ok && len(as.Rhs) == 1 {
+								if ta, ok := as.Rhs[0].(*ast.TypeAssertExpr); ok && types.ExprString(ta.X) == "msg" {
+									switch types.ExprString(ta.Type) {
+									case "runtime.Error":
+										return 0
+									case "string":
+										return 1
+									}
+									return -1
+								}
+							}
+						}
+					}
+					return -1
+				}
+				var visit func(n ast.Node) bool
+				visit = func(n ast.Node) bool {
+					if n == nil {
+						stack = stack[:len(stack)-1]
+						return true
+					}
+					stack = append(stack, n)
+					bl, ok := n.(*ast.BasicLit)
+					if !ok {
+						return true
+					}
+					tv, ok := rt.TypesInfo.Types[bl]
+					if !ok || tv.Value == nil || tv.Value.Kind() != constant.String {
+						return true
+					}
+					mode := -1 // 1 prefix, 0 equality
+					if len(stack) >= 2 {
+						switch par := stack[len(stack)-2].(type) {
+						case *ast.CallExpr:
+							if types.ExprString(par.Fun) == "strings.HasPrefix" && len(par.Args) == 2 && par.Args[1] == ast.Expr(bl) {
+								mode = 1
+							}
+						case *ast.BinaryExpr:
+							if par.Op.String() == "==" {
+								mode = 0
+							}
+						case *ast.CaseClause:
+							for _, x := range par.List {
+								if x == ast.Expr(bl) {
+									mode = 0
+								}
+							}
+						}
+					}
+					if mode >= 0 {
+						k := kindOf()
+						if k < 0 {
+							panic("convertPanic: literal " + bl.Value + " is tested on a payload of unknown type")
+						}
+						if !firstRule {
+							b.WriteString(";")
+						}
+						firstRule = false
+						fmt.Fprintf(b, "\n  ([%s], %d, %s, %s)", strings.Join(ops, "; "), k, coqBool(mode == 1), coqBytes(constant.StringVal(tv.Value)))
+					}
+					return true
+				}
+				for _, st := range cc.Body {
+					ast.Inspect(st, visit)
+				}
+			}
+			b.WriteString("].\n")
+			// the opcodes the model names
+			for _, n := range []string{"OpAdd", "OpAddr", "OpIndex", "OpIndexRef", "OpSetSlice", "OpAppendSlice", "OpCallIndirect", "OpCallNative", "OpClose", "OpConvert",
+				"OpDelete", "OpMapIndex", "OpMapIndexAny", "OpDivInt", "OpDiv", "OpRemInt", "OpRem", "OpGo", "OpIf", "OpIndexString", "OpMakeChan", "OpMakeSlice",
+				"OpPanic", "OpSend", "OpSetMap", "OpSlice", "OpStringSlice", "OpReturn", "OpCallMacro", "OpShow", "OpText"} {
+				fmt.Fprintf(b, "Definition gen_%s : Z := (%d)%%Z.\n", n, constInt(rt, n))
+			}
+			// VM.Run: what is done with each kind of error
+			run := findMethod(rt, "VM", "Run")
+			if run == nil {
+				panic("method VM.Run not found")
+			}
+			var kinds []string
+			ast.Inspect(run.Body, func(n ast.Node) bool {
+				if ts, ok := n.(*ast.TypeSwitchStmt); ok {
+					for _, cl := range ts.Body.List {
+						cc := cl.(*ast.CaseClause)
+						act := "return"
+						for _, st := range cc.Body {
+							if es, ok := st.(*ast.ExprStmt); ok {
+								if ce, ok := es.X.(*ast.CallExpr); ok && types.ExprString(ce.Fun) == "panic" {
+									act = "panic " + types.ExprString(ce.Args[0])
+								}
+							}
+							if as, ok := st.(*ast.AssignStmt); ok && len(as.Lhs) == 1 && types.ExprString(as.Lhs[0]) == "err" {
+								act = "return " + types.ExprString(as.Rhs[0])
+							}
+							if is, ok := st.(*ast.IfStmt); ok {
+								for _, s2 := range is.Body.List {
+									if as, ok := s2.(*ast.AssignStmt); ok && types.ExprString(as.Lhs[0]) == "err" {
+										act = "return " + types.ExprString(as.Rhs[0]) + " if " + types.ExprString(is.Cond)
+									}
+								}
+							}
+						}
+						for _, t := range cc.List {
+							kinds = append(kinds, types.ExprString(t)+" => "+act)
+						}
+					}
+				}
+				return true
+			})
+			fmt.Fprintf(b, "(* vm.go VM.Run: treatment of the error returned by runFunc, by dynamic type *)\nDefinition gen_Run_cases : list (list N) := [")
+			for i, k := range kinds {
+				if i > 0 {
+					b.WriteString("; ")
+				}
+				b.WriteString(coqBytes(k))
+			}
+			b.WriteString("].\n\n")
+		}
+
 		fmt.Fprintf(b, "(* escapers.go queryEscape: bytes written for byte c when it is not copied *)\nDefinition gen_queryEscape : list (N * list N) := [")
 		first := true
 		for c := int64(0); c < 256; c++ {
